@@ -22,6 +22,11 @@ import (
 type c11SchedCase struct {
 	Kind    string `json:"kind"` // "beside-stalled-reader"
 	Close   string `json:"close"`
+	// Pipeline > 0 (kind "pipeline-ladder"): client A is alone, pipelines that many complete
+	// SETs and a partial one in ONE write and ends its stream at once - by half close (then
+	// reads everything) or by full close without having read a single reply, so that every
+	// reply write of the server meets a closed peer.
+	Pipeline int `json:"pipeline,omitempty"`
 	Choices []int  `json:"choices,omitempty"`
 }
 
@@ -37,6 +42,33 @@ func c11SchedExplorer(cs c11SchedCase, bound int) *sched.Explorer {
 			s := srv.NewServer(d)
 			if err := s.Start(); err != nil {
 				note = "HARNESS-PANIC start: " + err.Error()
+				return
+			}
+			if cs.Pipeline > 0 {
+				a, o := sched.Dial(":6379")
+				if o.Status != "ok" {
+					note = "HARNESS-PANIC dial"
+					return
+				}
+				aRaw = a.Raw()
+				var buf []byte
+				for i := 0; i < cs.Pipeline; i++ {
+					buf = append(buf, resp.Cmd("SET", fmt.Sprintf("p%d", i), "1").Bytes()...)
+				}
+				a.Send(concat(buf, []byte("*3\r\n$3\r\nSET\r\n$1\r\nc\r\n$5\r\nab")))
+				if cs.Close == "half" {
+					a.Raw().CloseWrite()
+					for i := 0; i < cs.Pipeline+2; i++ {
+						r := a.Recv()
+						if r.Status != "ok" {
+							break
+						}
+						replies = append(replies, r.Reply.String())
+					}
+				} else {
+					a.Close()
+				}
+				vrt.WaitQuiet()
 				return
 			}
 			b, o := sched.Dial(":6379")
@@ -87,6 +119,26 @@ func c11SchedExplorer(cs c11SchedCase, bound int) *sched.Explorer {
 					}
 				}
 				obs := fmt.Sprintf("sets=%v replies=%v", sets, replies)
+				if cs.Pipeline > 0 {
+					var want []string
+					for i := 0; i < cs.Pipeline; i++ {
+						want = append(want, fmt.Sprintf("p%d", i))
+					}
+					if strings.Join(sets, ",") != strings.Join(want, ",") {
+						clause := "complete-request-not-executed"
+						if len(sets) > len(want) {
+							clause = "partial-request-executed"
+						}
+						return sched.Verdict{Clause: clause, Detail: fmt.Sprintf("%d complete SETs and a partial one in one write, then %s close: the handler's Set calls are %v (%s)", cs.Pipeline, cs.Close, sets, obs), Obs: obs}
+					}
+					if cs.Close == "half" && len(replies) < cs.Pipeline {
+						return sched.Verdict{Clause: "complete-request-not-answered", Detail: fmt.Sprintf("after a half close %d replies were received for %d complete requests: %v", len(replies), cs.Pipeline, replies), Obs: obs}
+					}
+					if aRaw != nil && !aRaw.PeerClosed() {
+						return sched.Verdict{Clause: "socket-not-closed", Detail: "the connection whose stream ended was never closed by the server (" + obs + ")", Obs: obs}
+					}
+					return sched.Verdict{Obs: obs}
+				}
 				if strings.Join(sets, ",") != "a,b" {
 					clause := "complete-request-not-executed"
 					if len(sets) > 2 {
@@ -129,6 +181,38 @@ func c11Sched(c *fw.Ctx) {
 		x.Explore()
 		c.Nontrivial()
 		schedAccount(c, x, "beside-stalled-reader "+cl)
+	}
+}
+
+// c11Ladder: the pipeline ladder (1, 3, 6, 12, 20 complete requests before the partial one).
+func c11Ladder(c *fw.Ctx) {
+	for _, n := range []int{1, 3, 6, 12, 20} {
+		for _, cl := range []string{"half", "full"} {
+			if !c.Mine() {
+				continue
+			}
+			cs := c11SchedCase{Kind: "pipeline-ladder", Close: cl, Pipeline: n}
+			bound := 2
+			if n > 3 {
+				bound = 1
+			}
+			x := c11SchedExplorer(cs, bound)
+			x.Expired = c.Expired
+			x.OnExec = func(choices []int, r *vrt.Result, v sched.Verdict) {
+				c.Eval()
+				if strings.HasPrefix(v.Obs, "HARNESS-PANIC") {
+					c.HarnessError("C11 %s %s", cs.Kind, v.Obs)
+				}
+				if v.Clause != "" {
+					cc := cs
+					cc.Choices = choices
+					c.Violation(fmt.Sprintf("C11|pipeline-ladder|%d|%s-close|%s", n, cl, v.Clause), v.Detail+fmt.Sprintf(" schedule=%v", choices), cc)
+				}
+			}
+			x.Explore()
+			c.Nontrivial()
+			schedAccount(c, x, fmt.Sprintf("pipeline-ladder %d %s", n, cl))
+		}
 	}
 }
 
